@@ -13,6 +13,7 @@ from vlib import MachineryFault
 
 MC_CFG = """CONSTANTS
   Genesis = 0
+  Unavailable = 999999
   MaxTx = %d
   MaxGen = %d
   MaxActive = 2
@@ -91,7 +92,7 @@ def run(chk, args):
     tf = os.path.join(wd, "trace.ndjson")
     dd = os.path.join(wd, "d")
     os.makedirs(dd)
-    out, _ = vlib.run_harness(binp, ["-seed", str(chk.seed), "-runs", str(runs), "-dir", dd, "-out", tf], timeout=1500)
+    out, _ = vlib.run_harness(binp, ["-seed", str(chk.seed), "-runs", str(runs), "-dir", dd, "-out", tf, "-repo", vlib.REPO], timeout=1500)
     r = json.loads(out)
     segs = split_segments(open(tf).readlines())
     if len(segs) != runs:
